@@ -37,7 +37,7 @@ def declared_hooks(ctx: Ctx, cname: str) -> Tuple[List[Hook], List[Path]]:
             disabled.append(p)
         made: List[Tuple[Event, Optional[Event]]] = []
         for e in p.events:
-            if e.kind == "call" and e.site.how == "ctor" and e.name == "EventHook":
+            if e.kind == "call" and e.site.how == "ctor" and e.name == "EventHook" and "comp" not in e.ctx:
                 made.append((e, None))
             if e.kind == "loop":
                 for bp in e.paths:
@@ -65,6 +65,23 @@ def declared_hooks(ctx: Ctx, cname: str) -> Tuple[List[Hook], List[Path]]:
                         collect(e.args[0], depth + 1)
 
         collect(p.exit[1])
+        # hooks built by a comprehension: the construction sits inside the comprehension term
+        class _Pseudo:
+            def __init__(self, it: Term):
+                self.iter = it
+
+        comps = []
+        for t in list(ret_terms):
+            for s_ in subterms(t):
+                if s_[0] == "comp":
+                    comps.append(s_)
+        for e in p.walk_events(True):
+            if e.kind == "call" and e.site.how == "ctor" and e.name == "EventHook" and "comp" in e.ctx and not any(e is m for m, _ in made):
+                for cmp_ in comps:
+                    if strip_ver(cmp_[2]) == strip_ver(e.term):
+                        made.append((e, _Pseudo(cmp_[3][0][1])))  # type: ignore[arg-type]
+                        ret_terms.add(e.term)
+                        break
         for e, lp in made:
             ht = kw(e, "hook_type", 1)
             ib = kw(e, "is_before", 2)
